@@ -20,10 +20,12 @@ META = {
     "level": "Part (b), full on the model: for EVERY interleaving of start/cancel/observe/fire/ctx-cancel with every statement of "
              "the timer goroutine as extracted from roundtimer.go - no panic when each start follows a returned cancel or an "
              "observed elapse, the request is always answered, a timer fires at most once, and no elapse after cancel returned. "
-             "Part (a), partial: on the round state machine model (Model/StateMachine.v, tied to the real tmstate.StateMachine "
-             "by per-event correspondence) every timer started by any event of any history is of the kind of the step entered "
-             "(C12sm_timer_kinds_partial); 'exactly one timer, armed iff in a timed step' is decided by Coq monitors on the "
-             "real state machine's recorded timer calls, not by an inductive proof.",
+             "Part (a): on the round state machine model (Model/StateMachine.v, tied to the real tmstate.StateMachine by per-event "
+             "correspondence) proved over ALL event histories by an inductive invariant (Properties/C12smInv.v): a timer is never "
+             "started while another is outstanding; an outstanding timer belongs to the current round and to the step of its kind; "
+             "the machine's belief about its timer equals the timer actually outstanding; leaving the step or round cancels it. The "
+             "converse (in a timed step => a timer is armed) is refuted by a witness replayed on the code (stale step after a "
+             "committed-header response, same root cause as C08's known finding w1).",
     "note": "Partial: Go's select choice, channel close visibility, sync.Mutex and time.Timer semantics are trusted (modelled); "
             "the cancel function is one atomic step (close bracketed by Lock/Unlock); the caller is single threaded; the stress "
             "run samples real schedules, the theorems cover all model schedules. Repo fix f318c13 (cancel checked first in the "
